@@ -30,15 +30,6 @@ RECURSIVE MixErr(_)
 MixErr(t) == IF t.t \in {"null", "leaf", "rleaf"} THEN FALSE
              ELSE \/ MixErr(t.l) \/ MixErr(t.r)
                   \/ LET n == NormT(t) IN n.t \in Ops /\ NormT(t.l).t # "null" /\ NormT(t.r).t # "null" /\ MixesKeyIndex(n)
-\* projection p (stored form) is the normal-form term n
-RECURSIVE TermSame(_, _)
-TermSame(p, n) ==
-  CASE n.t = "null" -> p.t = "null"
-    [] n.t = "leaf" -> /\ p.t = "leaf" /\ p.fn = n.fn /\ p.datum = n.datum /\ p.pre = n.pre
-                       /\ SameArgsFn(n.fn, p.args, p.kw, n.args, n.kw)
-    [] OTHER -> p.t = n.t /\ TermSame(p.l, n.l) /\ TermSame(p.r, n.r)
-
-
 (***************************************************************************)
 (* Part constructors (MapValue / ListValue / MapOrListValue.__init__ via   *)
 (* get_container_value_condition).                                         *)
@@ -63,9 +54,39 @@ MkPathT(rparts, dt, mt) ==
   PathT([j \in 1..Len(rparts) |-> MkPartT(rparts[j])],
         \A j \in 1..Len(rparts) : rparts[j].rk = "prim", dt, mt)
 
-SameLabel(a, b) == Same(a, b)
+(***************************************************************************)
+(* Structural identity of a projection p (stored form) with a normal-form   *)
+(* term n.  Arguments are compared type-exactly, mappings unordered, and    *)
+(* DATA-PATH ARGUMENTS DEEPLY (part by part), whether given as a           *)
+(* projection ("dpath") or as a recipe ("rdpath").                         *)
+(***************************************************************************)
+RECURSIVE ArgSame(_, _), TermSame(_, _), PartSame(_, _), PathSame(_, _)
+IsPathVal(v) == v.k \in {"dpath", "rdpath"}
+PathOfArg(v) == IF v.k = "rdpath" THEN MkPathT(v.xs[1].rparts, v.xs[1].dt, v.xs[1].mt) ELSE v.xs[1]
+ArgSame(a, b) ==
+  IF IsPathVal(a) \/ IsPathVal(b) THEN IsPathVal(a) /\ IsPathVal(b) /\ PathSame(PathOfArg(a), PathOfArg(b))
+  ELSE /\ a.k = b.k
+       /\ CASE a.k \in {"list", "tuple"} ->
+                 Len(a.xs) = Len(b.xs) /\ \A i \in 1..Len(a.xs) : ArgSame(a.xs[i], b.xs[i])
+            [] a.k = "map" ->
+                 Len(a.xs) = Len(b.xs) /\
+                 \A i \in 1..Len(a.xs) : \E j \in 1..Len(b.xs) : ArgSame(a.xs[i][1], b.xs[j][1]) /\ ArgSame(a.xs[i][2], b.xs[j][2])
+            [] a.k = "str" -> a.xs = b.xs
+            [] OTHER -> a.n = b.n
+KwSeqSame(a, b) == Len(a) = Len(b) /\ \A j \in 1..Len(a) : a[j].nc = b[j].nc /\ ArgSame(a[j].v, b[j].v)
+KwSetSame(a, b) == /\ Len(a) = Len(b)
+                   /\ \A j \in 1..Len(a) : \E m \in 1..Len(b) : a[j].nc = b[m].nc /\ ArgSame(a[j].v, b[m].v)
+ArgsSameFn(fn, pargs, pkw, sargs, skw) ==
+  CASE SigKind(fn) = "fixed" -> FixedShapeOk(fn, pargs, pkw) /\ KwSeqSame(NormFixed(fn, pargs, pkw), skw)
+    [] SigKind(fn) = "varkw" -> pargs = <<>> /\ KwSetSame(pkw, skw)
+    [] OTHER -> pkw = <<>> /\ Len(pargs) = Len(sargs) /\ \A j \in 1..Len(pargs) : ArgSame(pargs[j], sargs[j])
+TermSame(p, n) ==
+  CASE n.t = "null" -> p.t = "null"
+    [] n.t = "leaf" -> /\ p.t = "leaf" /\ p.fn = n.fn /\ p.datum = n.datum /\ p.pre = n.pre
+                       /\ ArgsSameFn(n.fn, p.args, p.kw, n.args, n.kw)
+    [] OTHER -> p.t = n.t /\ TermSame(p.l, n.l) /\ TermSame(p.r, n.r)
 PartSame(p, n) == /\ p.pk = n.pk /\ TermSame(p.cond, n.cond) /\ TermSame(p.lcond, n.lcond)
-                  /\ TermSame(p.mcond, n.mcond) /\ SameLabel(p.label, n.label)
+                  /\ TermSame(p.mcond, n.mcond) /\ Same(p.label, n.label)
 PathSame(p, n) == /\ Len(p.parts) = Len(n.parts) /\ \A j \in 1..Len(n.parts) : PartSame(p.parts[j], n.parts[j])
                   /\ p.concrete = n.concrete /\ p.dt = n.dt /\ p.mt = n.mt
 =============================================================================
